@@ -19,7 +19,7 @@ LEVEL_TEXT = (
     "EVERY k<E: status, values, error identity, node invocations must equal the run without processors and the healthy recorder must see the "
     "complete baseline stream and its shutdown."
 )
-LEVEL_NOTE = "default (deterministic) schedule of the async runner; streams compared after renaming run/span ids to first-occurrence indices and dropping times"
+LEVEL_NOTE = "fault points are complete on the default schedule of both runners; in addition every async completion order within the deviation bound (quick 1, thorough 2; capped per program, cap reported) is replayed choice-for-choice with a failing processor at every fault point; streams compared after renaming run/span ids to first-occurrence indices and dropping times"
 RULE = "programs x runners x {raise,continue} x fault point k in [0,E) x processor kind x position, plus 'every event' and 'at shutdown'; distinct_nontrivial = distinct (program, runner, fault point) whose processor failure was actually reached"
 ASSUMPTIONS = ["processor failures are ordinary Exceptions (the dispatcher's contract); strict dispatch mode is not used by the runners"]
 
@@ -70,10 +70,11 @@ def _programs():
 
 
 def shards(tier, seed):
-    return [(tier, seed, i) for i, _ in enumerate(_programs())]
+    n = sum(1 for _ in _programs())
+    return [(tier, seed, i) for i in range(n)] + [(tier, seed, ("sched", i)) for i in range(n)]
 
 
-def _run(prog, inputs, extra, runner, eh, special, procs):
+def _run(prog, inputs, extra, runner, eh, special, procs, ch=None):
     from hypergraph.cache import InMemoryCache
 
     p = T.set_async(prog, runner == "async")
@@ -81,12 +82,12 @@ def _run(prog, inputs, extra, runner, eh, special, procs):
     cache = None
     if isinstance(special, tuple):
         fault = {special}
-    h = H(fault=fault)
+    h = H(ch, suspend=ch is not None, fault=fault)
     if special == "cache":
         cache = InMemoryCache()
         hw = H()
         execute(p, inputs, runner=runner, h=hw, cache=cache, **extra)  # warm-up run (not observed)
-    x = execute(p, inputs, runner=runner, h=h, cache=cache, error_handling=eh, event_processors=procs if procs else None, **extra)
+    x = execute(p, inputs, runner=runner, chooser=ch, h=h, cache=cache, error_handling=eh, event_processors=procs if procs else None, **extra)
     return x
 
 
@@ -99,9 +100,65 @@ def _obs(x):
     return (x.view(), calls, ident)
 
 
+def sched_shard(acc, tier, pi):
+    """Every completion order (within the bound) of the async runner: the schedule is explored once with a healthy
+    recorder only; then THE SAME choice sequence is replayed with a failing processor at every fault point.  The
+    failing processor must not change the run, the schedule (the replay must consume exactly the same choices) or
+    the healthy recorder's stream."""
+    from ..explorer import explore, run_once
+
+    name, prog, inputs, extra, special = list(_programs())[pi]
+    bound = 1 if tier == "quick" else 2
+    cap = 40 if tier == "quick" else 400
+    for eh in ("raise", "continue"):
+        stats = {}
+        n_sched = 0
+        for ch, (x0, rec0) in explore(lambda ch: (lambda r: (_run(prog, inputs, extra, "async", eh, special, [r], ch), r))(Rec()), bound=bound, max_execs=cap, stats=stats):
+            acc.evaluations += 1
+            acc.traces += 1
+            n_sched += 1
+            if x0.deadlock or x0.horizon:
+                acc.violation({"symptom": "no-termination"}, {"program": prog, "inputs": jsonable(inputs), "extra": extra, "runner": "async", "eh": eh, "special": jsonable(special), "fault": None, "choices": ch.choices}, "run with a healthy recorder did not terminate")
+                continue
+            base = _obs(x0)
+            S = canon_stream(rec0.log)
+            E = sum(1 for e in rec0.log if e != "shutdown")
+            pts = [("k", k) for k in range(E)] + [("every", None), ("shutdown", None)]
+            for kind_name, cls in (("sync", Failing), ("async", AFailing)):
+                for pt in pts:
+                    for pos in ("before", "after"):
+                        f = cls(k=pt[1]) if pt[0] == "k" else (cls(every=True) if pt[0] == "every" else cls(at_shutdown=True))
+                        rec = Rec()
+                        procs = [f, rec] if pos == "before" else [rec, f]
+                        w = {"program": prog, "inputs": jsonable(inputs), "extra": extra, "runner": "async", "eh": eh, "special": jsonable(special), "fault": [kind_name, list(pt), pos], "choices": ch.choices}
+                        try:
+                            ch2, x = run_once(lambda c: _run(prog, inputs, extra, "async", eh, special, procs, c), ch.choices)
+                        except Exception as e:  # noqa: BLE001  (replay divergence: the failing processor changed the schedule)
+                            acc.violation({"symptom": "schedule-altered", "site": pt[0]}, w, f"replaying the schedule with a processor failing at {pt} diverged: {type(e).__name__}: {str(e)[:120]}")
+                            continue
+                        acc.evaluations += 1
+                        if f.raised:
+                            acc.key((name, "sched", eh, tuple(ch.choices), kind_name, pt, pos))
+                        if len(ch2.choices) != len(ch.choices):
+                            acc.violation({"symptom": "schedule-altered", "site": pt[0]}, w, f"a processor failing at {pt} changed the number of scheduling points ({len(ch2.choices)} vs {len(ch.choices)})")
+                            continue
+                        o = _obs(x)
+                        if o != base:
+                            what = "status/values/error" if o[0] != base[0] else ("node invocations" if o[1] != base[1] else "error identity")
+                            acc.violation({"symptom": "run-altered", "what": what, "site": pt[0], "schedule": "explored"}, w, f"schedule {ch.choices}: processor failing at {pt} ({kind_name}, {pos}) altered the run's {what}", size=len(repr(prog)) + len(ch.choices))
+                        if canon_stream(rec.log) != S:
+                            acc.violation({"symptom": "healthy-processor-stream-incomplete", "site": pt[0], "pos": pos, "schedule": "explored"}, w, f"schedule {ch.choices}: the healthy processor's stream differs when a sibling fails at {pt} ({pos})", size=len(repr(prog)) + len(ch.choices))
+        acc.counters[f"schedules[{name},{eh}]"] = n_sched
+        if stats.get("cap_hit"):
+            acc.caps.append({"program": name, "schedules_cap": cap})
+
+
 def run_shard(shard):
     tier, seed, pi = shard
     acc = Acc()
+    if isinstance(pi, tuple):
+        sched_shard(acc, tier, pi[1])
+        return acc
     name, prog, inputs, extra, special = list(_programs())[pi]
     for runner in ("sync", "async"):
         for eh in ("raise", "continue"):
@@ -153,6 +210,27 @@ def replay(rep):
     special = rep.get("special")
     if isinstance(special, list):
         special = tuple(special)
+    if rep.get("choices") is not None:
+        from ..explorer import run_once
+
+        r0 = Rec()
+        _, x0 = run_once(lambda c: _run(prog, inputs, extra, "async", eh, special, [r0], c), rep["choices"])
+        if rep["fault"] is None:
+            return ["run with a healthy recorder did not terminate"] if (x0.deadlock or x0.horizon) else []
+        kind_name, pt, pos = rep["fault"]
+        cls = {"sync": Failing}.get(kind_name, AFailing)
+        f = cls(k=pt[1]) if pt[0] == "k" else (cls(every=True) if pt[0] == "every" else cls(at_shutdown=True))
+        r1 = Rec()
+        try:
+            c2, x1 = run_once(lambda c: _run(prog, inputs, extra, "async", eh, special, [f, r1] if pos == "before" else [r1, f], c), rep["choices"])
+        except Exception as e:  # noqa: BLE001
+            return [f"schedule diverged: {e}"]
+        msgs = []
+        if _obs(x1) != _obs(x0):
+            msgs.append("run altered by failing processor (explored schedule)")
+        if canon_stream(r1.log) != canon_stream(r0.log):
+            msgs.append("healthy processor's stream differs (explored schedule)")
+        return msgs
     base0 = _obs(_run(prog, inputs, extra, runner, eh, special, None))
     rec0 = Rec()
     xb = _run(prog, inputs, extra, runner, eh, special, [rec0])
